@@ -45,8 +45,20 @@ claim('C09', 'exploration', TECH + ': reference BFS reachability compared with t
       'junctions with demand must not be zeroed; pauses with a new simulator are placed while districts are isolated.',
       INV_NOTE, 'DESIGN.md section 4 (C09)')
 
+claim('C10', 'fault_enumeration', TECH + ': every pause point on the hydraulic grid x persistence {none,pickle,deepcopy} per seeded world, restart = new simulator on durable state only',
+      'For each generated world the uninterrupted run is the reference; every grid pause time is executed with each persistence mode (plus seeded multi-pause '
+      'histories): run to the pause, persist the model, continue with a new WNTRSimulator. The concatenated tables must have exactly the uninterrupted index '
+      '(no earlier time revisited, checked inside the run too), equal statuses/settings and values within solver-tolerance slack.',
+      'Trusted: taps, pickle/deepcopy of the standard library, comparison slack derived from the solver tolerance (DESIGN.md 3.4). Exhaustive over pause points per world, sampled over worlds (<= 24 steps).',
+      'DESIGN.md section 4 (C10)')
+claim('C11', 'exploration', TECH + ': seeded run/reset/copy/reload/failed-run/aborted-run histories with both simulators, definition digest after every operation',
+      'Histories of 3-7 operations (WNTR run after reset, EPANET run in a scratch directory, deepcopy/pickle/JSON-reload and run, run with an injected failing solve, '
+      'run aborted by an exception at solve k, run without reset) are executed on generated worlds; the JSON-normalised to_dict must be unchanged after every '
+      'operation and every run from the reset state must reproduce the first run.',
+      INV_NOTE, 'DESIGN.md section 4 (C11)')
+
 _PENDING = 'check not built yet in this session (planned, see DESIGN.md section 11); not claimed until it runs clean'
-for _p in ['C03', 'C04', 'C05', 'C10', 'C11', 'C12', 'C13', 'C14', 'C15']:
+for _p in ['C03', 'C04', 'C05', 'C12', 'C13', 'C14', 'C15']:
     NOT_APPLICABLE[_p] = _PENDING
 NOT_APPLICABLE['C17'] = 'pure total functions of (value, unit, parameter): no state, clock, I/O or failure mode for a schedule or fault to act on; deterministic simulation has nothing to vary (DESIGN.md section 7)'
 NOT_APPLICABLE['C18'] = 'pure function of (graph, valve layer) returning a labelling: nothing evolves, fails or persists (DESIGN.md section 7)'
